@@ -97,7 +97,7 @@ def relabelled_systems(quick):
         gW = gfun()
         nW = len(gW)
         for perm in itertools.permutations(range(nW)):
-            for order in (("after",) if quick else ("after", "before")):
+            for order in (("after",) if quick or nW > 3 else ("after", "before")):
                 n = 3 + nW
                 offA, offW = (0, 3) if order == "after" else (nW, 0)
                 A = tuple(offA + i for i in range(3))
